@@ -109,6 +109,7 @@ type erow struct {
 	Blanks []bool   `json:"blanks"`
 	Fields []efield `json:"fields"`
 	CRLF   bool     `json:"crlf"`
+	Raw    []byte   `json:"raw,omitempty"` // written as is instead of the fields (malformed lines)
 }
 
 func needsQuote(enc, f []byte) bool {
@@ -126,6 +127,10 @@ func encRow(enc []byte, row erow) []byte {
 	var b []byte
 	for _, x := range row.Blanks {
 		b = append(b, eol(x)...)
+	}
+	if row.Raw != nil {
+		b = append(b, row.Raw...)
+		return append(b, eol(row.CRLF)...)
 	}
 	for i, f := range row.Fields {
 		if i > 0 {
